@@ -458,6 +458,10 @@ func suiteExpandDefs(env *Env, res *Result) {
 		hostile := r.Chance(1, 4)
 		m, names := genDefs(r, hostile)
 		src := genDefSource(r, names, hostile)
+		if len(names) > 0 && r.Chance(1, 8) {
+			// a prefix or suffix line is expanded on its own, without a line break: the text IS the reference
+			src = r.Pick([]string{"", "a", "\\b"}) + "{{" + r.Pick(names) + "}}"
+		}
 		cp := map[string]string{}
 		for k, v := range m {
 			cp[k] = v
